@@ -18,12 +18,7 @@ META = {
 
 # Demonstrated on the unchanged tree (see the final report of the family): prefixWithSpace tests the
 # hex letters 'a'..'b' / 'A'..'B' instead of 'a'..'f' / 'A'..'F'.
-PROPOSED_KNOWN = [
-    {"kind": "known",
-     "signature": {"fam": "escapers", "cause": "css-hex-letter-after-escape"},
-     "what": "CSS string escaper omits the separating space when a hex escape is followed by c d e f C D E F "
-             "(internal/runtime/escapers.go prefixWithSpace tests 'a'..'b'): \"<c\" renders \\3cc, which CSS decodes as U+03CC"},
-]
+PROPOSED_KNOWN = []   # the defect found by this check (prefixWithSpace) was fixed in /repo (known-findings.json, kind "fixed")
 
 FAMS = ["escapers"]
 MC_INVS = ["RoundTrip", "CssAsFoundExtent", "UrlPreIdentity"]
